@@ -16,7 +16,7 @@ func verifInput(maxN int) (line []byte, whole []byte, before []byte) {
 	n := vf.Choose("len", maxN+1)
 	whole = vf.Bytes("data", n+verifGuard)
 	before = append([]byte(nil), whole...)
-	return whole[:n : n+verifGuard], whole, before
+	return whole[: n : n+verifGuard], whole, before
 }
 
 func verifGuardIntact(whole, before []byte, n int) bool {
@@ -100,7 +100,7 @@ func verifStaged(prefixes []string, maxT int) (line, whole, before []byte) {
 	whole = append([]byte(p), tail...)
 	before = append([]byte(nil), whole...)
 	n := len(p) + t
-	return whole[:n : n+verifGuard], whole, before
+	return whole[: n : n+verifGuard], whole, before
 }
 
 // ---- postgres ----
